@@ -22,13 +22,13 @@ CHECKS = {
  "C14": ("bit-precise QF_FP (cvc5) over all doubles alpha for enumerated n, executed through the real split arithmetic; plus symbolic gate runs", "bounded: every double alpha in (0,1) x listed n; gate end-to-end", "5"),
  "C06": ("bit-precise QF_FP (cvc5) for the rank arithmetic over all doubles alpha; dynamic symbolic execution (z3) of compute_bootstrap_errors with stubbed leaves (invariant) and of the interval functions from arbitrary draws satisfying the invariant (assume/guarantee)", "bounded: all doubles alpha x listed B; B<=3 draws, <=3 outstanding units for the value-level clauses", "5"),
  "C07": ("dynamic symbolic execution of the real client + bootstrap aggregate functions from arbitrary draws (z3); call/stop states enumerated as cases", "bounded: 2 contests x all call/stop states, every sign of prediction and bounds", "5"),
- "C08": ("dynamic symbolic execution of get_national_summary_estimates after the real aggregate loop (z3); aggregate lists/orders enumerated", "bounded: 2 contests, B=2, all aggregate lists and orders over 3 levels", "5"),
+ "C08": ("dynamic symbolic execution of get_national_summary_estimates after the real aggregate loop (z3); aggregate lists/orders enumerated; sigmoid mode through a sound piecewise-linear envelope of expit (non-strict monotone, sign-linked)", "bounded: 2 contests, B=2, all aggregate lists and orders over 3 levels", "5"),
  "C15": ("dynamic symbolic execution of GaussianElectionModel.get_aggregate_prediction_intervals + GaussianModel.fit with set-labelled calibration statistics (z3)", "bounded: calibration counts from {0,1,9,10,11} per group, <=2 states, 2 levels", "5"),
  "C16": ("explorer-enumerated categorical structure + SMT over the continuous features (z3) on the real Featurizer", "bounded exhaustive over level assignments (<=3^5), symbolic feature values", "5"),
  "C17": ("dynamic symbolic execution of compute_versioned_margin_estimate on symbolic version histories (z3, nonlinear reals)", "bounded: V<=3 versions, latest percent <=3", "5"),
  "C18": ("explorer-enumerated option subsets on the real client with recording S3 fake (z3 explorer) + CrossHair (z3) on the key builders with symbolic id strings", "bounded: all 16 option subsets x env x estimator x gate outcome; ids <=2-3 chars", "5"),
  "C19": ("CrossHair (z3) on list_versions with symbolic timestamp lists / page sizes / windows; explorer-enumerated retrieval (sampling step, failing subsets, window) on the real get / get_versioned_results", "bounded: <=5 versions, page<=3, step<=3, all failing subsets", "5"),
- "C20": ("fault injection as a case parameter + self-composition with the fault-free run + SMT", "bounded: every position of the failing fit x 2 failure kinds", "5"),
+ "C20": ("fault injection as a case parameter + self-composition with the fault-free run (tables and the argument lists of every fit) + SMT", "bounded: every position of the failing fit x 2 failure kinds", "5"),
 }
 def main():
     checks = []
